@@ -293,7 +293,7 @@ CU8(p) == /\ pc[p] = "cu8" /\ A' = [A EXCEPT ![L[p].b].wr = FALSE, ![L[p].b].app
           /\ Goto(p, "cu9") /\ UNCHANGED <<S, G, L, ops>> /\ Same(p)
 CU9(p) == /\ pc[p] = "cu9" /\ UNCHANGED <<A, S, G, ops>> /\ Same(p)
           /\ IF A[L[p].a].wtbf = 1 THEN Loc(p, [L[p] EXCEPT !.cont = "cu10"]) /\ Goto(p, "cuF1") ELSE UNCHANGED L /\ Goto(p, "cu10")
-CU10(p) == /\ pc[p] = "cu10" /\ G' = [G EXCEPT !.fileNos[L[p].k % N] = L[p].b + 1] /\ Goto(p, "cu11")           \* relocate(stale.name, fresh)
+CU10(p) == /\ pc[p] = "cu10" /\ G' = [G EXCEPT !.fileNos[H[p].k % N] = L[p].b + 1] /\ Goto(p, "cu11")           \* relocate(stale.name, fresh)
            /\ UNCHANGED <<A, S, L, ops>> /\ Same(p)
 CU11(p) == /\ pc[p] = "cu11" /\ UNCHANGED <<A, S, G, ops>> /\ Same(p)
            /\ IF A[L[p].a].wtbf = 1 THEN Loc(p, [L[p] EXCEPT !.cont = "cu12"]) /\ Goto(p, "cuF1") ELSE UNCHANGED L /\ Goto(p, "cu12")
